@@ -221,6 +221,10 @@ impl GenerationPass for AvailableValuePass {
                 rule_perform_math_ops(&node.node(), &mut out_reg_n, &node.reg_values_in());
                 rule_push_value_to_csr_memory(&node.node(), &mut out_memory_n, &out_reg_n);
                 rule_known_values_to_stack(&mut out_memory_n, &node.reg_values_in());
+                // A memory value that is still described through a register
+                // ("whatever that register held when it was stored") stops
+                // being true once this node overwrites the register.
+                rule_forget_overwritten_registers(&node, &mut out_memory_n);
                 // TODO stack reset?
 
                 // If either of the outs changed, replace the old outs with the new outs
@@ -411,6 +415,29 @@ fn rule_known_values_to_stack(
                 }
             }
         }
+    }
+}
+
+fn rule_forget_overwritten_registers(
+    node: &Rc<crate::cfg::CfgNode>,
+    memory_out: &mut AvailableValueMap<MemoryLocation>,
+) {
+    let mut overwritten = node.kill_reg();
+    if node.calls_to().is_some() {
+        overwritten |= Register::return_addr_set();
+    }
+    if let Some((_, rets)) = node.known_ecall_signature() {
+        overwritten |= rets;
+    }
+    let stale = memory_out
+        .iter()
+        .filter(|(_, val)| {
+            matches!(val, AvailableValue::RegisterWithScalar(reg, _) if overwritten.contains(reg))
+        })
+        .map(|(pos, _)| pos.clone())
+        .collect::<Vec<_>>();
+    for pos in stale {
+        memory_out.remove(&pos);
     }
 }
 
